@@ -34,13 +34,188 @@ theorem prS_okS_root (env : Env) (sep : Str) (s : Schema) (e : Elem) (hw : wf s 
     OkS env s (prS env sep false s e) :=
   prS_okS s hw hbs has false e hok
 
+/-- a Compound-free schema has no Compound state to be incomplete -/
+theorem compoundsFull_of_compoundFree : ∀ s : Schema, compoundFree s = true →
+    ∀ e : Elem, compoundsFull s e = true := by
+  intro s
+  induction s using schema_ind with
+  | hleaf nm o k => intro _ e; cases e <;> simp [compoundsFull]
+  | hjoined nm o k mem => intro _ e; cases e <;> simp [compoundsFull]
+  | harray nm o p member ih => intro _ e; cases e <;> simp [compoundsFull]
+  | hcompound nm o k fields ih => intro hcf; simp [compoundFree] at hcf
+  | hdict nm o mode fields ih =>
+    intro hcf e
+    simp only [compoundFree] at hcf
+    cases e with
+    | dict ms =>
+      simp only [compoundsFull]
+      exact compoundsFullMs_of (fun f hf e _ => ih f hf (compoundFree_of_mem hcf f hf) e)
+    | _ => simp [compoundsFull]
+  | hlist nm o p mx member ih =>
+    intro hcf e
+    simp only [compoundFree] at hcf
+    cases e with
+    | list ms =>
+      simp only [compoundsFull, List.all_eq_true]
+      exact fun m _ => ih hcf m
+    | _ => simp [compoundsFull]
+
+/-! ### `prS` produces states whose Compounds are full (so `compoundsFull` is preserved) -/
+
+theorem lookup_pick_val (fields : List Schema) (hnd : (namesOf fields).Nodup)
+    (hsome : ∀ g ∈ fields, g.name.isSome) (req : Schema → Bool) (K : List (Str × Str))
+    (V : Schema → Elem) (f : Schema) (hf : f ∈ fields) (e : Elem)
+    (hl : lookup (f.name.getD []) (pickV req K V true fields ++ pickV req K V false fields) = some e) :
+    e = if touched K f then V f else blank f := by
+  have hm := mem_of_lookup hl
+  have hex : ∃ g ∈ fields, f.name.getD [] = g.name.getD [] ∧ e = if touched K g then V g else blank g := by
+    rcases List.mem_append.mp hm with h | h
+    · obtain ⟨g, hg, h1, _, _, h4⟩ := mem_pickV h
+      exact ⟨g, hg, h1, h4⟩
+    · obtain ⟨g, hg, h1, _, _, h4⟩ := mem_pickV h
+      exact ⟨g, hg, h1, h4⟩
+  obtain ⟨g, hg, h1, h4⟩ := hex
+  have : f = g := field_eq_of_nmOf hnd hsome hf hg h1
+  subst this
+  exact h4
+
+theorem blankFields_keys : ∀ fs : List Schema,
+    (blankFields fs).map (·.1) = fs.map (fun f => f.name.getD [])
+  | [] => rfl
+  | f :: fs => by simp [blankFields, blankFields_keys fs]
+
+theorem compoundsFull_blank : ∀ s : Schema, wf s = true → compoundsFull s (blank s) = true := by
+  intro s
+  induction s using schema_ind with
+  | hleaf nm o k => intro _; simp [blank, compoundsFull]
+  | hjoined nm o k mem => intro _; simp [blank, compoundsFull]
+  | harray nm o p member ih => intro _; simp [blank, compoundsFull]
+  | hlist nm o p mx member ih => intro _; simp [blank, compoundsFull]
+  | hdict nm o mode fields ih =>
+    intro hw
+    simp only [wf, Bool.and_eq_true] at hw
+    have hnd : (namesOf fields).Nodup := by simpa using hw.2
+    have hsome := allSome_of fields hw.1.2
+    rw [blank_dict_members]
+    simp only [compoundsFull]
+    apply compoundsFullMs_of
+    intro f hf e hl
+    rw [blankSel_eq_pick (isReq mode) (fun f => blank f) fields] at hl
+    have := lookup_pick_val fields hnd hsome _ _ _ f hf e hl
+    have he : e = blank f := by simpa using this
+    rw [he]
+    exact ih f hf (wf_of_mem hw.1.1 f hf)
+  | hcompound nm o k fields ih =>
+    intro hw
+    simp only [wf, Bool.and_eq_true] at hw
+    have hnd : (namesOf fields).Nodup := by simpa using hw.2
+    have hsome := allSome_of fields hw.1.2
+    simp only [blank, compoundsFull, Bool.and_eq_true, decide_eq_true_eq]
+    refine ⟨blankFields_keys fields, compoundsFullMs_of ?_⟩
+    intro f hf e hl
+    rw [lookup_blankFields fields hnd hsome f hf] at hl
+    injection hl with hl
+    rw [← hl]
+    exact ih f hf (wf_of_mem hw.1.1 f hf)
+
+/-- whatever subset of its fields a Compound state held, the rebuilt one holds all of them, in
+    declaration order: `compoundsFull` holds of EVERY rebuilt tree (in particular it is preserved) -/
+theorem compoundsFull_prS (env : Env) (sep : Str) : ∀ s : Schema, wf s = true →
+    ∀ (u : Bool) (e : Elem), OkS env s e → compoundsFull s (prS env sep u s e) = true := by
+  intro s
+  induction s using schema_ind with
+  | hleaf nm o k => intro _ u e _; cases e <;> simp [prS, pr, compoundsFull]
+  | hjoined nm o k mem =>
+    intro _ u e hok
+    cases e with
+    | joined t ms => simp only [prS, pr]; split <;> simp [compoundsFull]
+    | _ => simp [OkS, OkP] at hok
+  | harray nm o p member ih =>
+    intro _ u e hok
+    cases e with
+    | array ms => simp [prS, pr, compoundsFull]
+    | _ => simp [OkS, OkP] at hok
+  | hlist nm o p mx member ih =>
+    intro hw u e hok
+    simp only [wf] at hw
+    cases e with
+    | list ms =>
+      simp only [OkS] at hok
+      obtain ⟨_, _, hmem⟩ := hok
+      simp only [prS]
+      split
+      · simp only [compoundsFull, List.all_eq_true]
+        intro x hx
+        obtain ⟨m, hm, rfl⟩ := List.mem_map.mp hx
+        exact ih hw true m (hmem m (List.mem_filter.mp hm).1)
+      · simp only [compoundsFull, List.all_eq_true]
+        intro x hx
+        obtain ⟨m, hm, rfl⟩ := List.mem_map.mp hx
+        split
+        · exact ih hw u m (hmem m (mem_of_mem_dropTrailing _ _ _ hm))
+        · exact compoundsFull_blank member hw
+    | _ => simp [OkS] at hok
+  | hdict nm o mode fields ih =>
+    intro hw u e hok
+    cases e with
+    | dict ms =>
+      simp only [wf, Bool.and_eq_true] at hw
+      have hnd : (namesOf fields).Nodup := by simpa using hw.2
+      have hsome := allSome_of fields hw.1.2
+      simp only [OkS] at hok
+      simp only [prS]
+      rw [prSPick_eq, prSPick_eq]
+      simp only [compoundsFull]
+      apply compoundsFullMs_of
+      intro f hf e hl
+      rw [lookup_pick_val fields hnd hsome _ _ _ f hf e hl]
+      split
+      · simp only [valS]
+        cases hlm : lookup (f.name.getD []) ms with
+        | none => exact compoundsFull_blank f (wf_of_mem hw.1.1 f hf)
+        | some x =>
+          exact ih f hf (wf_of_mem hw.1.1 f hf) u x (okS_member_lookup hnd hok.2 hf (hsome f hf) hlm)
+      · exact compoundsFull_blank f (wf_of_mem hw.1.1 f hf)
+    | _ => simp [OkS] at hok
+  | hcompound nm o k fields ih =>
+    intro hw u e hok
+    cases e with
+    | dict ms =>
+      simp only [wf, Bool.and_eq_true] at hw
+      have hnd : (namesOf fields).Nodup := by simpa using hw.2
+      have hsome := allSome_of fields hw.1.2
+      simp only [OkS] at hok
+      simp only [prS]
+      rw [prSPick_eq, prSPick_eq]
+      simp only [compoundsFull, Bool.and_eq_true, decide_eq_true_eq]
+      refine ⟨by rw [List.map_append, pickV_keys, pickV_keys, (pickKeys_all _ fields).1,
+        (pickKeys_all _ fields).2, List.append_nil], compoundsFullMs_of ?_⟩
+      intro f hf e hl
+      rw [lookup_pick_val fields hnd hsome _ _ _ f hf e hl]
+      split
+      · simp only [valS]
+        cases hlm : lookup (f.name.getD []) ms with
+        | none => exact compoundsFull_blank f (wf_of_mem hw.1.1 f hf)
+        | some x =>
+          exact ih f hf (wf_of_mem hw.1.1 f hf) u x (okS_member_lookup hnd hok.2 hf (hsome f hf) hlm)
+      · exact compoundsFull_blank f (wf_of_mem hw.1.1 f hf)
+    | _ => simp [OkS] at hok
+
+/-- `prS` is idempotent on flattened output (Compounds allowed: every Compound state holds all its
+    fields) -/
+theorem flatten_prS_prS_full (env : Env) (sep sep' : Str) (s : Schema) (u : Bool) (e : Elem)
+    (hw : wf s = true) (hbs : blankSettled env s = true) (hpf : prefixFree s = true)
+    (hcf : compoundsFull s e = true) (has : arraysScalar s = true) (hok : OkS env s e) :
+    flatten env sep' s (prS env sep u s (prS env sep u s e)) = flatten env sep' s (prS env sep u s e) :=
+  flatten_prS_of_stable env sep sep' s u _ hw (prS_okS s hw hbs has u e hok)
+    (stableS_prS s ⟨hw, hpf, hbs, has⟩ u e hok hcf)
+
 /-- `prS` is idempotent on flattened output -/
 theorem flatten_prS_prS (env : Env) (sep sep' : Str) (s : Schema) (u : Bool) (e : Elem)
     (hw : wf s = true) (hbs : blankSettled env s = true) (hpf : prefixFree s = true)
     (hcf : compoundFree s = true) (has : arraysScalar s = true) (hok : OkS env s e) :
     flatten env sep' s (prS env sep u s (prS env sep u s e)) = flatten env sep' s (prS env sep u s e) :=
-  flatten_prS_of_stable env sep sep' s u _ hw hcf (prS_okS s hw hbs has u e hok)
-    (stableS_prS s ⟨hw, hpf, hcf, hbs, has⟩ u e hok)
+  flatten_prS_prS_full env sep sep' s u e hw hbs hpf (compoundsFull_of_compoundFree s hcf e) has hok
 
 /-- the full statement (Compounds and SparseDicts mixed): not proved in this round -/
 def C01_Sparse_Second_Full : Prop :=
@@ -62,6 +237,23 @@ theorem roundtrip_sparse_second_flat_partial (env : Env) (sep : Str) (s : Schema
     roundtrip_sparse env sep s _ hs henv hw hroot (prS_okS s hw hbs has false e hok)]
   exact flatten_prS_prS env sep sep s false e hw hbs hpf hcf has hok
 
+/-- **C01, second round trip, SparseDicts AND Compounds.**  The same for every well-formed schema —
+    Compounds and SparseDicts mixed at any depth — and every conforming state whose Compound states
+    hold all their declared fields in order (`compoundsFull`, decidable; true of every real Compound:
+    `Compound.__init__` creates every field and nothing removes one).  `OkS` alone lets a Compound
+    state hold a subset of its fields; then trip 1 adds the missing ones blank and the Compound's own
+    text `env.compose k …` is composed from a different list.  `_partial`: `compoundsFull`,
+    `arraysScalar`. -/
+theorem roundtrip_sparse_second_flat_compound_partial (env : Env) (sep : Str) (s : Schema) (e : Elem)
+    (hs : SepSafe env sep (Tok s)) (henv : EnvOK env) (hw : wf s = true) (hroot : rootOK s = true)
+    (hbs : blankSettled env s = true) (hpf : prefixFree s = true)
+    (hcf : compoundsFull s e = true) (has : arraysScalar s = true) (hok : OkS env s e) :
+    flatten env sep s (fromFlat env sep s (flatten env sep s (fromFlat env sep s (flatten env sep s e))))
+      = flatten env sep s (fromFlat env sep s (flatten env sep s e)) := by
+  rw [roundtrip_sparse env sep s e hs henv hw hroot hok,
+    roundtrip_sparse env sep s _ hs henv hw hroot (prS_okS s hw hbs has false e hok)]
+  exact flatten_prS_prS_full env sep sep s false e hw hbs hpf hcf has hok
+
 /-- the third, fourth, … trips rebuild the flat output of the first as well: the rebuilt tree is
     normal, conforming and stable, and stays so -/
 theorem roundtrip_sparse_rebuilt (env : Env) (sep : Str) (s : Schema) (e : Elem)
@@ -73,7 +265,7 @@ theorem roundtrip_sparse_rebuilt (env : Env) (sep : Str) (s : Schema) (e : Elem)
     StableS env sep false s (fromFlat env sep s (flatten env sep s e)) := by
   rw [roundtrip_sparse env sep s e hs henv hw hroot hok]
   exact ⟨prS_okS s hw hbs has false e hok, prS_sparseNormal s hw false e hok,
-    stableS_prS s ⟨hw, hpf, hcf, hbs, has⟩ false e hok⟩
+    stableS_prS s ⟨hw, hpf, hbs, has⟩ false e hok (compoundsFull_of_compoundFree s hcf e)⟩
 
 /-! ### non-vacuity: a `sparseReq` SparseDict in a pruning List of Dicts — trip 1 prunes a member,
     drops an empty optional member and reorders; trip 2 is the identity -/
